@@ -27,7 +27,31 @@ fn push_msg(s: &mut Scenario, next_id: &mut u8, m: Item) -> u8 {
 }
 
 /// constructively malformed first message for a content type (verdict certain)
+/// A well-formed message of a kind whose body is fully accounted for by fixed-size fields and
+/// length-prefixed vectors, with the LAST byte of the body removed and the message length adjusted:
+/// the final field or vector then runs past the end of the message - malformed, whatever came before.
+fn cut_structured(rng: &mut Rng) -> Vec<u8> {
+    // (kinds whose LAST element is mandatory for this crate too: the optional extension block of the
+    // hellos is removed first; draft-18 / HelloRetryRequest / NewSessionTicket are left out because
+    // the crate reads their last element as optional resp. opaque)
+    let kind = *rng.pick(&["client_hello", "server_hello", "certificate", "certificate_status", "next_protocol", "key_update"]);
+    let m0 = gen::handshake(rng, kind, 120);
+    let mut m = gen::rfc_valid(rng, m0);
+    if kind == "client_hello" || kind == "server_hello" {
+        m.set("ext", crate::item::Val::None);
+    }
+    let mut body = enc::hs_body(&m);
+    body.pop();
+    let mut v = vec![enc::hs_type(kind).unwrap_or(1)];
+    enc::put_u24(&mut v, body.len() as u64);
+    v.extend(body);
+    v
+}
+
 fn malformed_first(rng: &mut Rng, ctype: u8) -> Vec<u8> {
+    if ctype == 22 && rng.chance(1, 4) {
+        return cut_structured(rng);
+    }
     match ctype {
         20 => vec![*rng.pick(&[0u8, 2, 0x14, 0xff])],
         21 => vec![rng.u8()],
@@ -304,12 +328,15 @@ pub fn generate(rng: &mut Rng, prop: Prop) -> Scenario {
     let mut next_id = 0u8;
     // many-small: a long run of tiny records (the many-parsers' loop must not stop early or late)
     let many_small = !big && matches!(prop, Prop::C16 | Prop::C02 | Prop::C01) && rng.chance(1, 12);
+    let mut huge = false;
     if many_small {
         let n = match rng.below(8) {
             0 | 1 => *rng.pick(&[15usize, 16, 17, 31, 32, 33, 63, 64, 65, 127, 128, 129, 255, 256, 257]),
             2 => *rng.pick(&[1023usize, 1024, 1025, 2048, 3000, 4097]),
+            3 if prop == Prop::C16 && rng.chance(1, 24) => *rng.pick(&[8191usize, 8192, 8193, 16384, 32768, 65535, 65536, 65537, 70000]),
             _ => rng.urange(11, 300),
         };
+        huge = n > 5000;
         for _ in 0..n {
             let (t, data): (u8, Vec<u8>) = match rng.below(5) {
                 0 => (20, vec![1]),
@@ -391,7 +418,7 @@ pub fn generate(rng: &mut Rng, prop: Prop) -> Scenario {
         }
     }
     // delivery schedule
-    let mode = if bulk { *rng.pick(&[3u64, 3, 2, 4]) } else if many_small { *rng.pick(&[2u64, 3, 3, 4]) } else if total > 3000 { *rng.pick(&[1u64, 2, 3, 4, 5, 5]) } else { rng.below(6) };
+    let mode = if huge { 3 } else if bulk { *rng.pick(&[3u64, 3, 2, 4]) } else if many_small { *rng.pick(&[2u64, 3, 3, 4]) } else if total > 3000 { *rng.pick(&[1u64, 2, 3, 4, 5, 5]) } else { rng.below(6) };
     let mut left = total + 8; // corruption may lengthen the stream slightly
     let mut segs: Vec<usize> = Vec::new();
     match mode {
@@ -759,7 +786,7 @@ fn check_many(ctx: &mut Ctx, b: &[u8]) {
             Some((out, Some((used, t, v, l, msgs)))) if out.is_ok() && used > 0 => {
                 l_items.push((t, v, l, msgs));
                 off += used;
-                if l_items.len() > 5000 {
+                if l_items.len() > 100_000 {
                     break;
                 }
             }
